@@ -1,4 +1,6 @@
 """C08 — branches, paths, tips and furcations decompose the tree exactly."""
+import warnings
+
 import numpy as np
 
 from harness import gen
@@ -82,6 +84,25 @@ class Decomp(Suite):
         res["furcations"] = [int(n.id) for n in t.get_furcations()]
         res["node_branch"] = {str(i): [int(x) for x in t.node(i).branch().origin_id()] for i in range(min(case["tree"]["n"], 12))}
         res["node_flags"] = {str(i): [bool(t.node(i).is_furcation()), bool(t.node(i).is_tip())] for i in range(min(case["tree"]["n"], 12))}
+        # the less-used entry points onto the same decomposition
+        from swcgeom.transforms import ToBranchTree, ToLongestPath
+
+        with warnings.catch_warnings():
+            warnings.simplefilter("ignore")
+            res["bifurcations_alias"] = [int(n.id) for n in t.get_bifurcations()]
+            if case["tree"]["n"] > 1:
+                lp = ToLongestPath(detach=False)(t)
+                res["longest"] = {"ids": [int(v) for v in lp.get_ndata("id")], "length": float(lp.length())}
+                lpd = ToLongestPath()(t)
+                res["longest_detached_xyz"] = np.asarray(lpd.xyz()).astype(float).tolist()
+            try:
+                tb = ToBranchTree()(t)
+                res["tb_same"] = bool(np.array_equal(tb.pid(), BranchTree.from_tree(t).pid()) and np.array_equal(tb.xyz(), BranchTree.from_tree(t).xyz()))
+                ob = tb.get_origin_branches()
+                res["origin_branches"] = sorted([[float(c) for c in row] for row in b.xyz()] for b in ob)
+                res["origin_node_branches"] = {str(k): sorted([[float(c) for c in row] for row in b.xyz()] for b in tb.get_origin_node_branches(k)) for k in sorted(tb.branches.keys())}      # (a tip has no entry: asking for it is a KeyError, by design)
+            except Exception as e:  # noqa: BLE001
+                res["tb_exc"] = f"{type(e).__name__}: {e}"[:200]
         try:
             bt = BranchTree.from_tree(t)
             res["bt"] = {"pid": bt.pid().tolist(), "xyz": bt.xyz().astype(float).tolist(),
@@ -165,6 +186,27 @@ class Decomp(Suite):
                 want = sorted(tuple(tuple(float(c) for c in xyz[i]) for i in b) for b in res["branches"])
                 if stored != want:
                     out.append(("branchtree-points", "the branch tree does not remember exactly the original branches' points"))
+        if sorted(res.get("bifurcations_alias", res["furcations"])) != furc:
+            out.append(("furcations", f"get_bifurcations() {res['bifurcations_alias']} ≠ nodes with ≥2 children {furc}"))
+        if "longest" in res:
+            P = np.array(t["xyz"], dtype=np.float64)
+            plen = lambda ids: float(sum(np.linalg.norm(P[b] - P[a]) for a, b in zip(ids, ids[1:])))
+            best = max(plen(p_) for p_ in res["paths"])
+            L = res["longest"]
+            if L["ids"] not in res["paths"] or abs(plen(L["ids"]) - best) > 1e-4 * max(1.0, best) or abs(L["length"] - best) > 1e-4 * max(1.0, best):
+                out.append(("longest-path", f"ToLongestPath gives {L['ids']} of length {L['length']}; the longest root-to-tip path has length {best} (pids={pids})"))
+            if res["longest_detached_xyz"] != [[float(c) for c in t["xyz"][i]] for i in L["ids"]]:
+                out.append(("longest-path", "the detached longest path does not carry the positions of the path's nodes"))
+        if "tb_exc" in res and "exc" not in res["bt"]:
+            out.append(("branchtree-raises", f"ToBranchTree / get_origin_branches raised {res['tb_exc']}"))
+        if "origin_branches" in res:
+            xyz_ = t["xyz"]
+            want = sorted([[float(c) for c in xyz_[i]] for i in b] for b in res["branches"])
+            if res["origin_branches"] != want or not res.get("tb_same", True):
+                out.append(("branchtree-points", f"pids={pids}: get_origin_branches() does not return exactly the tree's branches"))
+            allb = sorted(b for v in res.get("origin_node_branches", {}).values() for b in v)
+            if "origin_node_branches" in res and allb != want:
+                out.append(("branchtree-points", f"pids={pids}: the branches filed under the branch tree's nodes are not exactly the tree's branches"))
         # Node.branch(): contains the node, is one of the branches (or the one-node branch of a furcation/lonely root)
         for i, b in res["node_branch"].items():
             i = int(i)
